@@ -1,4 +1,38 @@
-(* placeholder, replaced when the proofs for C11 are merged *)
-From Demes Require Import Base.Num.
-Theorem C11_placeholder : True.
-Proof. exact I. Qed.
+(* C11 — conversion to generations rescales all the times and nothing else.
+   Theorems only; proofs in Proofs/InGenProofs.v.  Generic over every number
+   implementation.  TimesRel R g h says: h is g with every time x replaced by a
+   y with R x y; names, sizes, rates, proportions, ancestry, every list length
+   and order, metadata and the name index are equal.
+   Validity of the result is NOT a theorem for binary64: the quotient t/gt is
+   not injective / can overflow or underflow on floats (known findings F12a-c);
+   it is checked on every converted graph by the harness. *)
+From Coq Require Import Bool List String QArith.
+From Demes Require Import Base.Num Base.Py Model.MDM Model.InGen Spec.Valid Proofs.InGenProofs.
+Import ListNotations.
+Local Open Scope string_scope.
+Local Open Scope list_scope.
+
+Section C11.
+  Context {N : NumOps} {L : NumLaws N}.
+
+  Theorem C11_total g : neqb (g_gt g) n0 = false -> exists h, in_generations g = Ok h.
+  Proof. exact (ingen_total g). Qed.
+
+  Theorem C11_times_divided_frame_unchanged g h :
+    in_generations g = Ok h ->
+    g_units h = "generations" /\ g_gt h = n1 /\
+    TimesRel (fun x y => y = ndiv x (g_gt g)) g h.
+  Proof. exact (ingen_spec g h). Qed.
+
+  Theorem C11_idempotent g h h' :
+    (forall x, ok x -> ok (ndiv x n1) /\ rk (ndiv x n1) == rk x) ->
+    (forall x, In x (graph_times h) -> ok x) ->
+    in_generations g = Ok h -> in_generations h = Ok h' ->
+    g_units h' = g_units h /\ g_gt h' = g_gt h /\
+    TimesRel (fun x y => neqb y x = true) h h'.
+  Proof. exact (ingen_idem g h h'). Qed.
+End C11.
+
+Print Assumptions C11_total.
+Print Assumptions C11_times_divided_frame_unchanged.
+Print Assumptions C11_idempotent.
